@@ -103,10 +103,12 @@ def merge_params(other_params, target_params):
     :return: IR of updated target. `target` is also updated in-place, and the memory of `other` is used.
     :rtype: ```dict```
     """
-    for name in other_params.keys() & target_params.keys():
-        merge_present_params(other_params[name], target_params[name])
-    for name in other_params.keys() - target_params.keys():
-        target_params[name] = other_params[name]
+    # Iterate in declaration order: set intersection/difference order depends on the interpreter's hash seed
+    for name in other_params:
+        if name in target_params:
+            merge_present_params(other_params[name], target_params[name])
+        else:
+            target_params[name] = other_params[name]
     return target_params
 
 
